@@ -195,59 +195,14 @@ Proof.
 Qed.
 
 (* ------------------------------------------------ (A) the accepting run itself *)
-Section Immediate.
-Variables (m : N) (t0 : N) (now : Z) (ro : bool) (fm : list (N * key)) (staged : list (N * bool)).
-
-Definition IA (s : pst) : Prop :=
-  (forall t a, In (t, a) (p_ksk s) -> ta_mat a = m -> t = t0 \/ (ta_st a = SAddPend /\ ta_fs a = now)) /\
-  (In m (p_revs s) -> mem m (p_tombs s) = true /\ forall a, In (t0, a) (p_ksk s) -> ta_mat a = m -> is_marker a = true).
-
-Lemma process_one_IA s t : IA s -> IA (process_one tag now ro fm staged s t).
-Proof.
-  intros [H1 H2]. unfold process_one.
-  destruct (lookup t fm) as [k|] eqn:Ef; [|split; assumption].
-  destruct (mem (k_mat k) (p_tombs s)) eqn:Emk; [split; assumption|].
-  destruct (ident_existing (p_ksk s) t k); [split; assumption|].
-  destruct (is_rev k).
-  - destruct (lookup (tag (unrev k)) (p_ksk s)) as [old|] eqn:Eo; [|split; assumption].
-    destruct (is_trusted_st old && same_except_revoke (ta_key old) k && staged_ok staged t) eqn:Ec; [|split; assumption].
-    apply andb_true_iff in Ec. destruct Ec as [Ec _]. apply andb_true_iff in Ec. destruct Ec as [Htr Hse].
-    apply same_except_revoke_mat in Hse. apply lookup_in in Eo.
-    assert (Hot : ta_mat old = m -> tag (unrev k) = t0).
-    { intros Hm. destruct (H1 _ _ Eo Hm) as [E|[Hs _]]; [exact E|]. unfold is_trusted_st in Htr. rewrite Hs in Htr. discriminate. }
-    unfold IA. cbn [p_ksk p_tombs p_revs]. split.
-    + intros x b Hin Hb. apply in_set in Hin. destruct Hin as [[-> ->]|[Hin _]]; [|apply H1; assumption].
-      left. apply Hot. exact Hb.
-    + intros Hin. split.
-      * rewrite mem_set. destruct Hin as [E|Hin]; [rewrite E, N.eqb_refl; reflexivity|].
-        rewrite (proj1 (H2 Hin)). apply orb_true_r.
-      * intros b Hb Hmb. apply in_set in Hb. destruct Hb as [[_ ->]|[Hb Hne]]; [reflexivity|].
-        destruct Hin as [E|Hin]; [|apply (proj2 (H2 Hin)); assumption].
-        exfalso. apply Hne. symmetry. apply Hot. unfold ta_mat. congruence.
-  - destruct ro; [split; assumption|]. destruct (lookup t (p_ksk s)) eqn:El; [split; assumption|].
-    unfold IA. cbn [p_ksk p_tombs p_revs]. split.
-    + intros x b Hin Hb. apply in_set in Hin. destruct Hin as [[-> ->]|[Hin _]]; [right; split; reflexivity|apply H1; assumption].
-    + intros Hin. destruct (H2 Hin) as [Hm Hmk]. split; [exact Hm|].
-      intros b Hb Hmb. apply in_set in Hb. destruct Hb as [[_ ->]|[Hb _]]; [|apply Hmk; assumption].
-      unfold ta_mat in Hmb. cbn in Hmb. rewrite Hmb, Hm in Emk. discriminate.
-Qed.
-
-Lemma process_IA tags s : IA s -> IA (process tag now ro fm staged tags s).
-Proof. intros H. unfold process. apply (fold_left_inv IA); [exact H|]. intros. apply process_one_IA. assumption. Qed.
-
-End Immediate.
-
-(* In the run that accepts the revocation of material m no key of material m is published — provided
-   all entries of material m in the pre-fetch map sit under one tag (true whenever a public key is
-   published and configured under one flags value; the hypothesis is necessary, see
-   accepted_revocation_immediate_needs_one_tag in Proofs_Refute.v). *)
-Lemma accepted_revocation_immediate_lemma live cfg d now fe fl ksk2 tombs2 m t0 :
-  prefetch tag live cfg d now fl = Some (ksk2, tombs2) ->
-  (forall t a, In (t, a) ksk2 -> ta_mat a = m -> t = t0) ->
+(* The run that accepts the revocation of material m publishes no key of material m — no hypothesis
+   (since 3c40407 finalRootKeys skips every entry of tombstoned material; before, a second entry of the
+   same public key under another flags value stayed published for that one run). *)
+Lemma accepted_revocation_immediate_lemma live cfg d now fe fl m :
   let r := autota tag live cfg d now fe fl in
   In m (r_revoked r) -> forall key, In key (r_live r) -> k_mat key <> m.
 Proof.
-  intros Hp H0. unfold autota. rewrite Hp.
+  unfold autota. destruct (prefetch tag live cfg d now fl) as [[ksk2 tombs2]|]; [|intros []].
   destruct fe as [|keys sigs]; [intros []|].
   assert (Hmain : forall ro,
     let fm := fetched_map tag keys in
@@ -258,33 +213,37 @@ Proof.
     let r := tail (if is_nil live then live else trusted_keys ksk2) d fl s4 in
     In m (r_revoked r) -> forall key, In key (r_live r) -> k_mat key <> m).
   { intros ro fm tags staged s3 s4 r Hin key Hk E.
-    assert (HI : IA m t0 now s3).
-    { apply process_IA. split; cbn; [intros t a Hi Hm; left; eapply H0; eassumption|intros []]. }
     assert (Hin3 : In m (p_revs s3)) by (unfold r, tail, s4 in Hin; cbn in Hin; destruct ro; exact Hin).
+    assert (HQ : Q m s3) by (apply process_Q; intros []).
+    destruct (HQ Hin3) as [Hm3 _].
     assert (Hnr : p_newrev s3 = true).
     { assert (HN : NR s3) by (apply process_NR; intros H; cbn in H; congruence). apply HN. intros H. rewrite H in Hin3. destruct Hin3. }
-    destruct HI as [H1 H2]. destruct (H2 Hin3) as [_ Hmk].
-    assert (H4 : forall x b, In (x, b) (p_ksk s4) -> ta_mat b = m -> is_trusted_st b = false).
-    { intros x b Hb Hmb. unfold s4 in Hb. destruct ro.
-      - destruct (H1 x b Hb Hmb) as [->|[Hs _]]; [apply marker_not_trusted; apply Hmk; assumption|].
-        unfold is_trusted_st. rewrite Hs. reflexivity.
-      - cbn in Hb. apply (keyrem_in tag) in Hb. destruct Hb as (a0 & Ha0 & Hc).
-        assert (Hka : ta_mat a0 = m).
-        { destruct Hc as [-> _ _ _|_ _ ->|_ _ _ ->|_ _ ->]; unfold ta_mat in *; cbn in Hmb; exact Hmb. }
-        pose proof hold_add_pos as Hpos.
-        destruct (H1 x a0 Ha0 Hka) as [->|[Hs Hfs]].
-        + pose proof (Hmk a0 Ha0 Hka) as Hm0. unfold is_marker in Hm0.
-          destruct Hc as [-> _ _ _|Hv _ _|Hv _ _ _|Hv _ _]; [apply marker_not_trusted; exact Hm0|rewrite Hv in Hm0; discriminate..].
-        + destruct Hc as [-> _ _ _|Hv _ _|_ _ Hage _|Hv _ _]; [unfold is_trusted_st; rewrite Hs; reflexivity|congruence| |congruence].
-          rewrite Hfs in Hage. lia. }
-    unfold r, tail in Hk. cbn [r_live] in Hk.
     assert (Hnr4 : p_newrev s4 = true) by (unfold s4; destruct ro; exact Hnr).
-    rewrite Hnr4 in Hk.
+    assert (Hm4 : mem m (p_tombs s4) = true) by (unfold s4; destruct ro; exact Hm3).
+    unfold r, tail in Hk. cbn [r_live] in Hk. rewrite Hnr4 in Hk.
     destruct (negb (negb (f_twrite fl)) && negb (negb (f_swrite fl))); [destruct Hk|].
-    apply trusted_keys_in in Hk. destruct Hk as (x & b & Hb & Htr & <-).
-    assert (Hb4 : In (x, b) (p_ksk s4)) by (destruct (negb (f_twrite fl)); [apply filter_In in Hb; apply Hb|exact Hb]).
-    rewrite (H4 x b Hb4 E) in Htr. discriminate. }
+    apply published_not_tomb in Hk. rewrite E, Hm4 in Hk. discriminate. }
   destruct (authenticate tag (trusted_keys ksk2) keys sigs); [intros []|apply (Hmain false)|apply (Hmain true)].
+Qed.
+
+(* Immediate AND permanent.  Once a run (from any state) accepted the revocation of material m and at
+   least one of its file replacements landed, no key of material m is in the live set at ANY later
+   point: not after that run itself, not after the restart that follows a crash of that run, not after
+   any later run, crash or restart. *)
+Lemma revocation_never_again_lemma (m : N) (s : sys) now fe fl :
+  In m (r_revoked (run_of tag s now fe fl)) ->
+  forall s1,
+  ((s1 = step tag s (ERun now fe fl) /\ r_writes (run_of tag s now fe fl) <> []) \/
+   (exists k cfg' tr sr, s1 = step tag s (ECrash now fe fl k cfg' tr sr) /\ firstn k (r_writes (run_of tag s now fe fl)) <> [])) ->
+  forall h key, In key (s_live (exec tag s1 h)) -> k_mat key <> m.
+Proof.
+  intros Hacc s1 Hs1 h.
+  destruct (revocation_permanent_lemma tag m s now fe fl Hacc s1 Hs1) as [Hd1 Hlater].
+  pattern h. apply rev_ind.
+  - cbn. destruct Hs1 as [[-> _]|(k & cfg' & tr & sr & -> & _)]; cbn.
+    + intros key. apply accepted_revocation_immediate_lemma. exact Hacc.
+    + intros key Hin. eapply restart_live_excludes; [exact Hd1|exact Hin].
+  - intros e h' _ key. rewrite exec_app. cbn. apply (Hlater h' e).
 Qed.
 
 End Live.
